@@ -138,6 +138,16 @@ def _tag_class(c, s, k, i):
     """structural class of a tag violation at activity i (flattened index, 0 = departure) of tour k"""
     try:
         a, stop = _flat(s['tours'][k])[i]
+        if a.get('type') == 'break' and a.get('jobTag') is None:
+            # finding C03-F3: create_tour resolves the offset interval of a break against `start.schedule.departure`, and inside a
+            # reload interval `start` is the RELOAD activity, not the tour start: behind a reload the interval is shifted by the
+            # reload's departure, get_job_tag finds no intersecting place and the tag is dropped
+            tour = s['tours'][k]
+            vt = e2e.vehicle_type_of(c, tour)
+            brs = e2e.optional_breaks(vt['shifts'][tour.get('shiftIndex', 0)])
+            if any(x.get('type') == 'reload' for x, _ in _flat(tour)[:i]) and \
+                    any(e2e.break_is_offset(b) and any(pl.get('tag') is not None for pl in b['places']) for b in brs):
+                return 'tag-of-offset-break-lost-behind-reload', 'break at activity %d of tour %d reported without tag: a tagged offset break of the shift taken behind a reload' % (i, k)
         job = next(j for j in c['problem']['plan']['jobs'] if j['id'] == a['jobId'])
         loc = (a.get('location') or stop['location'])['index']
         for kind, task in e2e.tasks_of(job):
